@@ -83,6 +83,7 @@ type Term struct {
 	c    *Term
 	k    uint64
 	name string
+	fp   bool // the DAG below contains floating-point operators
 }
 
 func (t *Term) isConst() bool { return t.op == oConst || t.op == oTrue || t.op == oFalse }
@@ -125,6 +126,12 @@ func (tt *termTable) mk(op opKind, w uint8, a, b, c *Term, k uint64, name string
 		return t
 	}
 	t := &Term{id: int32(len(tt.all)), op: op, w: w, a: a, b: b, c: c, k: k, name: name}
+	switch op {
+	case oFAdd, oFSub, oFMul, oFDiv, oFNeg, oFEq, oFLt, oFLe, oI2F, oU2F, oF2I, oFIsNaN:
+		t.fp = true
+	default:
+		t.fp = (a != nil && a.fp) || (b != nil && b.fp) || (c != nil && c.fp)
+	}
 	tt.m[key] = t
 	tt.all = append(tt.all, t)
 	if op == oVar {
